@@ -260,6 +260,12 @@ func (c *canonCtx) val(v ssa.Value) string {
 		return "closure:" + x.Fn.Name() + "@" + x.Name()
 	case *ssa.Call:
 		return c.call(x)
+	case *ssa.Next:
+		c.deps[x] = true
+		return "next@" + x.Name()
+	case *ssa.Range:
+		c.deps[x] = true
+		return "range@" + x.Name() + "(" + c.val(x.X) + ")"
 	}
 	c.deps[v] = true
 	return fmt.Sprintf("%T@%s", v, v.Name())
@@ -322,6 +328,11 @@ func (c *canonCtx) load(x *ssa.UnOp) string {
 				c.deps[d] = true
 			}
 			c.reads = append(c.reads, e.ce.Reads...)
+			if e.suffix != "" && strings.HasPrefix(e.ce.S, "new@") {
+				if s2, ok := c.st.ReadLocal(e.ce.S + e.suffix); ok {
+					return s2
+				}
+			}
 			return e.ce.S + e.suffix
 		}
 	}
